@@ -202,6 +202,51 @@ example : (turns { id := 1, swin := 5000, credit := 5000, pending := 5000 } 5000
           (turns { id := 1, swin := 5000, credit := 5000, pending := 5000 } 5000
             [2048, 2048, 2048]).1.sent = 5000 := by decide
 
+/-- **int32 safety**: after every history each window the server keeps fits a signed 32-bit
+    integer with room to spare: the connection window stays in [0, 2^31-1], every stream
+    window in [-(2^31-1), 2^31-1] (negative only through SETTINGS decreases), and the initial
+    window in [0, 2^31-1] — no addition or subtraction in the window logic can wrap. -/
+theorem c06_windows_fit_int32 (evs : List FcEv) : RInv (fcRun FcConn.init evs).1 :=
+  (RInv.init_holds c06_initial_windows_are_rfc_defaults).run evs
+
+/-- a SETTINGS_INITIAL_WINDOW_SIZE change that would push the window of any live stream out
+    of range is a connection error FLOW_CONTROL_ERROR (RFC 9113 §6.9.2) and changes nothing else -/
+theorem c06_settings_overflow_stream (c : FcConn) (v : Nat) (s : FcStream) (hv : ¬ (v : Int) > int32Max)
+    (hs : s ∈ c.streams) (hl : s.live = true) (ho : winOverflows s.swin ((v : Int) - c.initWin) = true) :
+    (applyInitialWindow c v).2 = [.goaway errFlowControl] ∧
+    (applyInitialWindow c v).1 = { c with goaway := some errFlowControl } := by
+  have hany : c.streams.any (fun s => s.live && winOverflows s.swin ((v : Int) - c.initWin)) = true := by
+    simp only [List.any_eq_true, Bool.and_eq_true]
+    exact ⟨s, hs, hl, ho⟩
+  simp [applyInitialWindow, hv, hany]
+
+/-- **Pass progress** with any number of streams: if some open stream has data pending and
+    the credit for it on both levels, a write pass with a budget of at least 2048 octets sends
+    something, wherever that stream sits in the scheduler's order. -/
+theorem c06_pass_progress (ss : List FcStream) (cswin : Int) (budget : Nat) (hb : 2048 ≤ budget)
+    (h : ∃ s ∈ ss, s.st = .open ∧ 0 < s.pending ∧ (s.pending : Int) ≤ s.swin ∧ (s.pending : Int) ≤ cswin) :
+    0 < (writePassAux cswin budget ss).total :=
+  writePassAux_progress ss cswin budget hb h
+
+/-- **Every response completes** (connection level): once the credit granted covers what is
+    still to be sent — per stream and on the connection (`Ample`) — every sequence of write
+    passes with budgets of at least 2048 octets drains all open streams, however many there
+    are: after at most as many passes as octets were pending nothing is pending on any open
+    stream and exactly those octets were sent.  (That a write pass happens at all is the
+    event loop's business and an input here.) -/
+theorem c06_all_streams_complete (c : FcConn) (bs : List Nat) (ha : Ample c)
+    (hb : ∀ b ∈ bs, 2048 ≤ b) (hl : openPending c.streams ≤ bs.length) :
+    openPending (passes c bs).streams = 0 ∧ (passes c bs).sent = c.sent + openPending c.streams :=
+  passes_complete bs c ha hb hl
+
+/-- non-vacuity: two streams, ample credit, three passes of 4096 octets -/
+example :
+    let c : FcConn := { swin := 9000, initWin := 65535, credit := 9000, clientInit := 65535,
+                        streams := [{ id := 1, swin := 5000, credit := 5000, pending := 5000 },
+                                    { id := 3, swin := 3000, credit := 3000, pending := 3000 }] }
+    openPending (passes c [4096, 4096, 4096]).streams = 0 ∧ (passes c [4096, 4096, 4096]).sent = 8000 := by
+  decide
+
 /-- the windows advertised in the server connection preface (read back from the code) -/
 theorem c06_advertised_windows :
     Extracted.h2AdvInitialWindow = 65536 ∧ Extracted.h2AdvConnWindowUpdate + 65535 = 262144 ∧
